@@ -21,7 +21,7 @@ def case_file_text(cases):
     out = []
     for c in cases:
         out.append('G %s 1 %d %d' % (c['id'], 1 if c['settings'].get('uctx') else 0, c.get('fuel', FUEL)))
-        out.append(gast.sx_grammar(c['rules']))
+        out.append(c.get('sexp') or gast.sx_grammar(c['rules']))
         for rule, text in c['inputs']:
             hx = text.encode('utf-8').hex() or '-'
             out.append('I %s %s 0' % (gast.atom(rule), hx))
@@ -58,13 +58,15 @@ def write_batch_crate(bdir, name, cases, casedir):
         mods.append('#[allow(warnings)]\nmod %s {\n    #[allow(unused_imports)]\n    use pvglue::{hooks, hooksc};\n'
                     '    include!("%s/%s.rs");\n}\n' % (m, casedir, c['id']))
         runner = 'run_ctx' if c['settings'].get('uctx') else 'run'
-        for x in c['rules']:
-            if x['kind'] == 'rule' and 'export' in x['dirs']:
-                ident = x['name']
-                if ident in gast_keywords():
-                    ident = 'r#' + ident
-                arms.append('        ("%s", "%s") => Some(pvglue::run::%s::<%s::%s>(input, u)),\n'
-                            % (c['id'], x['name'], runner, m, ident))
+        exports = c.get('exports')
+        if exports is None:
+            exports = [x['name'] for x in c['rules'] if x['kind'] == 'rule' and 'export' in x['dirs']]
+        for name in exports:
+            ident = name
+            if ident in gast_keywords():
+                ident = 'r#' + ident
+            arms.append('        ("%s", "%s") => Some(pvglue::run::%s::<%s::%s>(input, u)),\n'
+                        % (c['id'], name, runner, m, ident))
     src = ('#![forbid(unsafe_code)]\n#![allow(warnings)]\n' + ''.join(mods) +
            'fn dispatch(case: &str, rule: &str, input: &str, u: u64) -> Option<String> {\n    match (case, rule) {\n' +
            ''.join(arms) + '        _ => None,\n    }\n}\nfn main() {\n    pvglue::run::main_loop(dispatch);\n}\n')
@@ -304,3 +306,10 @@ def run_cases(cases, workdir, nbatch=8, indented=False):
             os.remove(os.path.join(casedir, f))
     return dict(gen=gen, compile_fail=cfail, impl=impl, model=model,
                 timing=dict(harness=t_h, build=t_build, run=t_run, total=time.time() - t0))
+
+
+def run_cases_text(cases, workdir):
+    """cases given by grammar text + sexp (replays): exported rules = the rules used by the inputs"""
+    for c in cases:
+        c['exports'] = sorted({r for r, _ in c['inputs']})
+    return run_cases(cases, workdir, nbatch=1)
